@@ -41,6 +41,11 @@ CHECKS = {
         technique='differential testing of three backends on Hypothesis-generated service histories and raw DataStore call sequences',
         text='The C01 history generator is replayed on RAM, in-memory SQLite and file SQLite servicers; responses, error classes, snapshots, every GetOperation name of the universe and the policy invocation counts must agree after each call. A second family drives all 21 DataStore methods directly (under the callers\' preconditions) with a pass-by-value probe.',
         note='a defect common to all backends is invisible here (C01 covers it); early-stopping recycle period is pinned to 0 or 1 day to remove wall-clock dependence'),
+    'C08': dict(
+        category=EXPL,
+        technique='differential testing of three deployments x two datastores on Hypothesis-generated client programs; promised-exception oracle per deployment',
+        text='Generated programs of clients.Study / clients.Trial calls (suggest, complete incl. twice, measure, stop, early-stop, delete, metadata, add_trial in/out of space, request, optimal, set_state, from_resource_name / from_owner_and_id on missing studies, delete + reload) run against the implicit in-process servicer, a DefaultVizierServer and a DistributedPythiaVizierServer (real gRPC over loopback), each on RAM and in-memory SQL; after every call the observation (return value or client-visible exception class / status) and the stored trials must agree across the six, and the exceptions client_abc promises (ResourceNotFoundError, ValueError for add_trial outside the space, [] from suggest on a finished study) are checked in every deployment on their own.',
+        note='stock GRID_SEARCH algorithm; NotFoundError (KeyError) in-process and StatusCode.NOT_FOUND over gRPC are treated as the same documented error class; servers are shared by the cases of a worker process'),
     'C10': dict(
         category=EXPL,
         technique='exhaustive namespace enumeration + Hypothesis op-list histories vs dict reference model',
